@@ -3,6 +3,7 @@ package verifsim
 import (
 	"context"
 	"encoding/json"
+	"errors"
 	"fmt"
 	"net/http"
 	"net/http/httptest"
@@ -393,6 +394,13 @@ func scnC18Wait(rc *RunCtx) {
 	}
 	start := func(w *c18Waiter) {
 		ctx, cancel := context.WithCancel(context.Background())
+		if t.Choose(3, "cancel.with.cause") == 2 {
+			// cancelled the way an error group cancels its context: with a cause of its own; what
+			// the waiter is owed is still the context's error
+			cctx, cancelCause := context.WithCancelCause(context.Background())
+			ctx, cancel = cctx, func() { cancelCause(errors.New("a worker failed")) }
+			rc.Sim.Count("c18.cancel_with_cause")
+		}
 		rc.Cleanup(cancel)
 		w.cancel, w.started, w.startedAt = cancel, true, rc.SimNow()
 		rc.Sim.Spawn(w.name, func() {
@@ -515,7 +523,7 @@ func scnC18Wait(rc *RunCtx) {
 		}
 		if w.done.err != nil {
 			if !w.cancelled || w.done.err != context.Canceled {
-				rc.Fail("C18", "wait-error", "%s: WaitForReady yielded %v although its context was not cancelled (steps: %v)", w.name, w.done.err, desc)
+				rc.Fail("C18", "wait-error", "%s: WaitForReady yielded %q (context cancelled: %v); a waiter gets an error only when its context was cancelled, and then the context's own error (steps: %v)", w.name, w.done.err, w.cancelled, desc)
 				return
 			}
 			continue
